@@ -22,6 +22,7 @@ fn main() {
             if args.len() >= 6 && args[4] == "--skip" {
                 skip = args[5].parse().unwrap_or(0);
             }
+            interp::start_watchdog(4);
             if let Err(e) = interp::run_file(&args[2], &args[3], skip) {
                 eprintln!("axv: io error: {e}");
                 std::process::exit(2);
